@@ -3,9 +3,11 @@ CONSTANTS
   Members = {"p", "q"}
   Vals = {1, 2}
   HwMax = 1
+  HwModes = {"clip", "refuse"}
 INVARIANT TypeOK
 INVARIANT Agree
 PROPERTY WriteLands
+PROPERTY RefusedNotStored
 PROPERTY ReadShowsHw
 PROPERTY CacheOpsKeepHw
 CHECK_DEADLOCK FALSE
